@@ -29,6 +29,7 @@ RULE = (
     "key of the untouched dataset.  Non-trivial: pairs differing in exactly one geometry feature; "
     "histories with an identity-changing operation between two keys."
     ' Also: bounds held as coordinates, Fortran-ordered geometry arrays, first- and last-element edits of geometry variables larger than 1 MiB (420x400 grid).'
+    " Second phase: the first case of every distinct outcome and kind (thorough: every case, for expensive checks every kind) again with debug logging enabled, under numpy.errstate(all='ignore'), and in python -O child interpreters."
 )
 LEVEL_TEXT = ("complete edit tables (equal / different pattern) for every family, recomputed under 4 hash seeds in fresh "
               "interpreters, plus every key/copy/hold/assign history to depth 3/4 in two object-identity regimes")
@@ -46,11 +47,25 @@ SPECS = [
     {'family': 'shoc_simple', 'ny': 2, 'nx': 2},
     {'family': 'shoc_standard', 'nj': 2, 'ni': 2},
     {'family': 'ugrid', 'mesh': 'M4', 'supplied': ['edge_node', 'face_edge'], 'fill': 'fillattr', 'start_index': 1},
+    {'family': 'ugrid', 'mesh': 'M6', 'face_coords': True, 'face_bounds': True, 'coords_as': 'coord'},
 ]
 
 
 def bounds(tier):
     return {'specs': len(SPECS), 'hash_seeds': ['0', '1', '2', '3', '4', '5', '12345', 'random'], 'history_depth': 3 if tier == 'quick' else 4}
+
+
+def environment_key(case, outcome):
+    # the second phase (other process environments): one table and one history search per family and regime
+    return (case['part'], (case.get('spec') or {}).get('family'), case.get('regime'), case.get('first', 0) % 2)
+
+
+ENVIRONMENTS_ON_REPRESENTATIVES_ONLY = True
+
+
+def environment_skip(case):
+    # the size canary and the hash-seed children are one large instance each, not a kind of behaviour
+    return bool((case.get('spec') or {}).get('big')) or case.get('part') == 'seeds'
 
 
 def cases(tier):
@@ -135,6 +150,11 @@ def variants(spec):
         ds = fresh()
         ds[name].attrs['extra_attribute'] = 'added'
         yield f'attr-added:{name}', 'differ', ds
+        # attribute names with a leading underscore (netCDF-Java's _CoordinateAxisType and friends) are attributes too
+        for value in ('Lon', 'GeoX'):
+            ds = fresh()
+            ds[name].attrs['_CoordinateAxisType'] = value
+            yield f'underscore-attr-{value}:{name}', 'differ', ds
         if attrs:
             # an attribute whose value does not decide which convention / topology the dataset has
             key = 'long_name' if 'long_name' in attrs else sorted(attrs)[0]
@@ -245,7 +265,7 @@ def run_seeds(case, rec):
 
 # ---------------------------------------------------------------------------------- history level
 
-HISTORY_OPS = ('key', 'copy', 'deepcopy', 'hold', 'assign', 'keycopy')
+HISTORY_OPS = ('key', 'copy', 'deepcopy', 'hold', 'assign', 'keycopy', 'edit')
 
 
 def run_history(case, rec):
@@ -270,10 +290,28 @@ def run_history(case, rec):
             keep = []          # objects kept alive by the "user"
             copies = []
             identity_op = False
+            epoch = 0                      # number of in-place geometry edits so far
+            seen = {}                      # epoch -> keys computed for content of that epoch
             for step, op in enumerate(history):
-                if op == 'key':
-                    key = compute_key(ds)
+                if op in ('key', 'keycopy'):
+                    target, target_epoch = (ds, epoch) if op == 'key' or not copies else copies[-1]
+                    key = compute_key(target)
                     rec.step()
+                    stale = [e for e, keys in seen.items() if e != target_epoch and key in keys]
+                    seen.setdefault(target_epoch, set()).add(key)
+                    if stale:
+                        rec.fail(f"{fp}/key-unchanged-after-geometry-edit", f"history {history}: the key at step {step} is the key computed "
+                                 f"before the geometry was edited in place", 'another key', key)
+                        break
+                    if target_epoch != 0:
+                        continue           # which key an edited dataset gets is the business of the edit tables
+                if op == 'edit':
+                    name = geometry_names(ds)[0]
+                    epoch += 1
+                    ds[name].attrs['survey_revision'] = f'revision {epoch}'
+                    rec.nontrivial(('edit', history))
+                    continue
+                if op == 'key':
                     if key != reference:
                         which = 'key-depends-on-object-identity' if identity_op else 'key-not-repeatable'
                         rec.fail(f"{fp}/{which}", f"history {history}: key at step {step} differs from the key of the untouched dataset "
@@ -281,18 +319,15 @@ def run_history(case, rec):
                                  reference, key)
                         break
                 elif op == 'keycopy':
-                    target = copies[-1] if copies else ds
-                    key = compute_key(target)
-                    rec.step()
                     if key != reference:
                         which = 'key-depends-on-object-identity' if (identity_op or copies) else 'key-not-repeatable'
                         rec.fail(f"{fp}/{which}", f"history {history}: key of the copy at step {step} differs", reference, key)
                         break
                 elif op == 'copy':
-                    copies.append(ds.copy())
+                    copies.append((ds.copy(), epoch))
                     identity_op = True
                 elif op == 'deepcopy':
-                    copies.append(ds.copy(deep=True))
+                    copies.append((ds.copy(deep=True), epoch))
                     identity_op = True
                 elif op == 'hold':
                     name = geometry_names(ds)[0]
